@@ -786,7 +786,7 @@ def numpy_binning(
         if not np.isfinite(stop - start):
             raise ValueError(f"Range too large to find bins: {start} to {stop}.")
         edges = np.linspace(start, stop, bin_count + 1)
-        if (np.diff(edges) == 0).any():
+        if (np.diff(edges) <= 0).any():  # (subnormal ranges may even come out of linspace non-monotonic)
             # The narrowest possible bins, starting at (not above) the lowest value
             edge = edges[0]
             edges = np.array(
